@@ -36,6 +36,36 @@ macro_rules! release {
                 format!("[{}]", v.join(","))
             }
 
+            /// The typed answer in the layout of `Display`, with one normalisation applied to BOTH releases:
+            /// a level whose throwable is missing from the result shows the throwable of the input at that
+            /// level.  The pinned release has the defect F3 (typed remapping drops a throwable whose class
+            /// is not in the mapping; repaired in the current tree by a9ed7b0), which changes typed answers
+            /// in the same way for every file, whatever its bytes.  Everything read from the file (mapped
+            /// throwables, frames, their order, the depth of the chain) is compared as it is.
+            fn typed_modulo_f3(input: &StackTrace<'_>, result: &StackTrace<'_>) -> String {
+                use std::fmt::Write;
+                let mut s = String::new();
+                let (mut res, mut inp) = (Some(result), Some(input));
+                while let Some(t) = res {
+                    match t.exception().or_else(|| inp.and_then(|i| i.exception())) {
+                        Some(e) => writeln!(s, "{}", e).unwrap(),
+                        None => {}
+                    }
+                    for f in t.frames() {
+                        writeln!(s, "    {}", f).unwrap();
+                    }
+                    res = t.cause();
+                    inp = inp.and_then(|i| i.cause());
+                    if res.is_some() {
+                        s.push_str("Caused by: ");
+                    }
+                }
+                if inp.is_some() {
+                    s.push_str("<<cause chain of the input is longer than the result's>>\n");
+                }
+                s
+            }
+
             /// answers the uppercase query ops against a cache file
             pub fn answer(file: &AlignedBuf, toks: &[&str]) -> String {
                 let parsed = guarded(|| ProguardCache::parse(file.bytes()));
@@ -75,7 +105,7 @@ macro_rules! release {
                     },
                     "Y" => match StackTrace::try_parse(strs[0].as_bytes()) {
                         None => "none".into(),
-                        Some(t) => hex(cache.remap_stacktrace_typed(&t).to_string().as_bytes()),
+                        Some(t) => hex(typed_modulo_f3(&t, &cache.remap_stacktrace_typed(&t)).as_bytes()),
                     },
                     "G" => match cache.deobfuscate_signature(&strs[0]) {
                         None => "~".into(),
